@@ -72,7 +72,7 @@ def plain_config(job, repo, out_dir, chunk_dir, key):
             # the schema default of the section is null (no early stopping), like lr_scheduler
             "early_stopping": (None if job.get("es") == "null" else {"stop_training_on_plateau": False, "min_delta": 1e-08, "patience": 20}),
             "trainer_devices": 1, "trainer_accelerator": "cpu", "enable_progress_bar": False, "steps_per_epoch": (None if job.get("feed") == "derived" else 1),
-            "max_epochs": 1, "seed": 1000, "use_wandb": job["wandb"], "save_ckpt": job["ckpt"], "save_ckpt_path": out_dir,
+            "max_epochs": 1, "seed": (None if job.get("seed") == "null" else 1000), "use_wandb": job["wandb"], "save_ckpt": job["ckpt"], "save_ckpt_path": out_dir,
             "resume_ckpt_path": None,
             "wandb": {"entity": None, "project": "verif", "name": "run", "wandb_mode": "offline", "api_key": key,
                       "prv_runid": None, "group": None},
